@@ -117,6 +117,10 @@ var scenarios = []scenario{
 		s.both(&model.Crit{Op: model.OpContains, Field: "arr", Args: []model.Operand{model.RefF("g")}})
 		s.both(&model.Crit{Op: model.OpContains, Field: "arr", Args: []model.Operand{model.RefF("x"), L("a")}})
 		s.both(model.Not(&model.Crit{Op: model.OpIn, Field: "x", Args: []model.Operand{model.RefF("g")}}))
+		// the listed elements are a list, not a set: duplicates (also under other numeric kinds, or through a reference) change nothing
+		s.both(&model.Crit{Op: model.OpContains, Field: "arr", Args: []model.Operand{L(int64(2)), L(int64(2)), L("a")}})
+		s.both(&model.Crit{Op: model.OpContains, Field: "arr", Args: []model.Operand{L(int64(9)), {Val: int64(9), Go: float64(9)}, {Val: int64(9), Go: uint8(9)}}})
+		s.both(&model.Crit{Op: model.OpContains, Field: "arr", Args: []model.Operand{L(int64(9)), model.RefF("g")}})
 	}},
 	{"D7-times-inside-containers", "C11 C01", func(s *S) {
 		t1 := time.Unix(1_600_000_000, 5).In(time.FixedZone("", 7200))
@@ -126,10 +130,13 @@ var scenarios = []scenario{
 			{"_id": fixedID(2), "a": []any{map[string]any{"t": t2, "l": []any{t1, nil}}}},
 			{"_id": fixedID(3), "a": map[string]any{"l": []any{t1, t2}}},
 			{"_id": fixedID(4), "a": []any{[]any{[]any{t2}}}, "t": t1},
+			{"_id": fixedID(5), "a": []any{}, "b": map[string]any{"l": []any{}, "m": map[string]any{}}, "c": []any{[]any{}, map[string]any{}}},
+			{"_id": fixedID(6), "a": []any{"created", t1}},
+			{"_id": fixedID(7), "a": []any{map[string]any{"msg": "x"}, map[string]any{"msg": "y", "at": t1}}},
 		}
 		s.CreateCollection("tm", nil)
 		s.Insert("tm", docs, false)
-		for i := 1; i <= 4 && !s.failed; i++ {
+		for i := 1; i <= 7 && !s.failed; i++ {
 			s.FindById("tm", fixedID(i))
 		}
 		s.CompareCollection("tm", "roundtrip:findall:directed", "insert")
@@ -163,6 +170,10 @@ var scenarios = []scenario{
 			s.DeleteById(c, fixedID(2))
 			s.DeleteById(c, fixedID(2))
 			s.Derived(&model.Query{Coll: c})
+			// an update function that returns nil removes the document: the counter must follow
+			s.Bulk(BulkUpdateFunc, &model.Query{Coll: c, Crit: cmpc(model.OpGtEq, "x", int64(4))}, &Upd{Name: "to_nil", Delete: true})
+			s.Derived(&model.Query{Coll: c})
+			s.Count(&model.Query{Coll: c, HasSkip: true, Skip: 1})
 		}
 		s.AuditPhysical("DeleteById(absent)")
 	}},
@@ -194,10 +205,16 @@ var scenarios = []scenario{
 		s.both(cmpc(model.OpGtEq, "n", int64(0)))
 		s.AuditPhysical("sibling indexes")
 		s.DropIndex("idx", "x")
+		s.ListIndexes("idx")
+		for _, f := range []string{"x", "xy", "n", "n.a"} {
+			s.HasIndex("idx", f)
+		}
 		s.both(nil, asc("xy"))
 		s.both(cmpc(model.OpGt, "xy", int64(103)))
 		s.AuditPhysical("DropIndex(x)")
 		s.DropIndex("idx", "n")
+		s.ListIndexes("idx")
+		s.CreateIndex("idx", "n.a") // exists
 		s.both(nil, asc("n.a"))
 		s.both(cmpc(model.OpGtEq, "n.a", int64(1)))
 		s.AuditPhysical("DropIndex(n)")
@@ -209,7 +226,7 @@ var scenarios = []scenario{
 	}},
 	{"D12-bulk-under-cursor", "C03 C06 C13", func(s *S) {
 		r := gen.New(12)
-		for round, n := range []int{37, 120, 400} {
+		for round, n := range []int{37, 120, 400, 1300} {
 			name := fmt.Sprintf("b%d", round)
 			s.CreateCollection(name, nil)
 			s.CreateIndex(name, "x")
@@ -223,6 +240,9 @@ var scenarios = []scenario{
 			s.Bulk(BulkUpdateMap, &model.Query{Coll: name, Crit: cmpc(model.OpGtEq, "x", int64(5))}, &Upd{Name: "backward", Set: map[string]any{"x": int64(-5)}})
 			s.Bulk(BulkUpdateFunc, &model.Query{Coll: name, Sorted: true, Sort: []model.SortOpt{{Field: "x", Dir: 1}}}, &Upd{Name: "all-inplace", InPlace: true, Set: map[string]any{"x": int64(7), "p": int64(1)}})
 			s.AuditPhysical("bulk updates")
+			// sort + skip without a limit: the skipped documents are the first ones in SORT order
+			s.Bulk(BulkUpdateFunc, &model.Query{Coll: name, Sorted: true, Sort: []model.SortOpt{{Field: "pad", Dir: -1}, {Field: "_id", Dir: 1}}, HasSkip: true, Skip: 5}, &Upd{Name: "skip-sorted", Set: map[string]any{"q": int64(1)}})
+			s.Bulk(BulkDelete, &model.Query{Coll: name, Crit: cmpc(model.OpEq, "g", int64(0)), Sorted: true, Sort: []model.SortOpt{{Field: "pad", Dir: 1}, {Field: "_id", Dir: -1}}, HasSkip: true, Skip: 3}, nil)
 			s.Bulk(BulkDelete, &model.Query{Coll: name, Crit: cmpc(model.OpEq, "g", int64(1))}, nil)
 			s.AuditPhysical("bulk delete")
 			s.DropIndex(name, "x")
@@ -244,9 +264,17 @@ var scenarios = []scenario{
 			s.UpdateById(c, fixedID(2), &Upd{Name: "rewrite_id", NewID: fixedID(3), InPlace: true, Set: map[string]any{}})
 			s.Bulk(BulkUpdateMap, &model.Query{Coll: c, Crit: cmpc(model.OpEq, "x", int64(4))}, &Upd{Name: "rewrite_id", NewID: fixedID(556), Set: map[string]any{}})
 			s.Bulk(BulkUpdateFunc, &model.Query{Coll: c, Crit: cmpc(model.OpEq, "x", int64(3))}, &Upd{Name: "rewrite_id", NewID: fixedID(1), InPlace: true, Set: map[string]any{}})
-			for _, i := range []int{1, 2, 3, 4, 555, 556} {
+			s.UpdateById(c, fixedID(4), &Upd{Name: "rewrite_id", NewID: "x", SpellingOfOwnID: true, Set: map[string]any{"x": int64(8)}})
+			s.Bulk(BulkUpdateFunc, &model.Query{Coll: c, Crit: cmpc(model.OpEq, "x", int64(2))}, &Upd{Name: "rewrite_id", NewID: "x", SpellingOfOwnID: true, InPlace: true, Set: map[string]any{}})
+			s.ReplaceById(c, fixedID(1), map[string]any{"_id": otherCase(fixedID(1) + ""), "x": int64(1)})
+			// a batch repeating one of its own ids, and one repeating a stored id, must fail as a whole
+			s.Insert(c, []map[string]any{{"_id": fixedID(70), "x": int64(1)}, {"_id": fixedID(71)}, {"_id": fixedID(70), "x": int64(2)}}, false)
+			s.Insert(c, []map[string]any{{"_id": fixedID(72)}, {"_id": fixedID(1)}}, false)
+			s.Insert(c, []map[string]any{{"_id": fixedID(73)}, {"_id": "zz"}}, false)
+			for _, i := range []int{1, 2, 3, 4, 555, 556, 70, 71, 72, 73} {
 				s.FindById(c, fixedID(i))
 			}
+			s.FindById(c, otherCase(fixedID(4)))
 			s.CompareCollection(c, "id:collection-after-rewrite", "id rewrites")
 		}
 		s.AuditPhysical("id rewrites")
@@ -255,6 +283,11 @@ var scenarios = []scenario{
 		s.CreateCollection("here", nil)
 		s.ListIndexes("nope")
 		s.HasIndex("nope", "a")
+		s.UpdateById("nope", fixedID(1), &Upd{Name: "set", Set: map[string]any{"a": int64(1)}})
+		s.ReplaceById("nope", fixedID(1), map[string]any{"_id": fixedID(1)})
+		s.DeleteById("nope", fixedID(1))
+		s.Insert("nope", []map[string]any{{"_id": fixedID(1)}}, false)
+		s.Insert("here", []map[string]any{{"_id": fixedID(1)}}, false) // the handle still takes writes
 		s.CreateIndex("nope", "a")
 		s.DropIndex("nope", "a")
 		s.ListIndexes("here")
@@ -299,6 +332,24 @@ var scenarios = []scenario{
 				return
 			}
 		}
+		// omitempty looks at the field itself: a non-nil pointer to a zero value is not empty
+		zero, empty := 0, ""
+		type omit struct {
+			C *int    `clover:"c,omitempty"`
+			S *string `clover:",omitempty"`
+			N *int    `clover:"n,omitempty"`
+			I any     `clover:"i,omitempty"`
+		}
+		od := document.NewDocumentOf(omit{C: &zero, S: &empty, N: nil, I: 0})
+		want := map[string]any{"c": int64(0), "S": "", "i": int64(0)}
+		if od == nil {
+			s.viol("normalize:newdocumentof-nil", "NewDocumentOf(struct) returned nil")
+			return
+		}
+		if d := model.StrictDiff(want, model.FromDoc(od)); d != "" {
+			s.viol("normalize:value:omitempty", "omitempty with non-nil pointers to zero values: %s (got %s)", d, model.Render(model.FromDoc(od)))
+			return
+		}
 		s.c.Cell("directed|pointers-to-times")
 	}},
 	{"D18-inplace-updater-with-index", "C06 C02 C03", func(s *S) {
@@ -313,6 +364,34 @@ var scenarios = []scenario{
 		}
 		s.Audit("in-place updaters")
 	}},
+	{"update-map-paths-vs-dotted-indexes", "C01 C02 C06 C14", func(s *S) {
+		s.twins(numDocs(9), "n.a", "n", "x")
+		asc := func(f string) model.SortOpt { return model.SortOpt{Field: f, Dir: 1} }
+		chk := func(after string) {
+			s.both(cmpc(model.OpGtEq, "n.a", int64(40)))
+			s.both(cmpc(model.OpEq, "n.a", int64(50)))
+			s.both(nil, asc("n.a"))
+			s.both(nil, asc("n"))
+			s.both(cmpc(model.OpGtEq, "n", map[string]any{"a": int64(40)}))
+			s.AuditPhysical(after)
+		}
+		for _, c := range []string{"plain", "idx"} {
+			// write an ancestor of the indexed path
+			s.Bulk(BulkUpdateMap, &model.Query{Coll: c, Crit: cmpc(model.OpLtEq, "x", int64(3))}, &Upd{Name: "set-parent", Set: map[string]any{"n": map[string]any{"a": int64(50), "b": "new"}}})
+		}
+		chk("Update(n = object)")
+		for _, c := range []string{"plain", "idx"} {
+			// write a descendant of the indexed object
+			s.Bulk(BulkUpdateMap, &model.Query{Coll: c, Crit: cmpc(model.OpGtEq, "x", int64(7))}, &Upd{Name: "set-child", Set: map[string]any{"n.a": int64(41)}})
+			s.UpdateById(c, fixedID(5), &Upd{Name: "set-child", Set: map[string]any{"n.b": "zz"}})
+		}
+		chk("Update(n.a = value)")
+		for _, c := range []string{"plain", "idx"} {
+			s.Bulk(BulkUpdateMap, &model.Query{Coll: c, Crit: cmpc(model.OpEq, "x", int64(5))}, &Upd{Name: "set-parent-scalar", Set: map[string]any{"n": int64(3)}})
+			s.Bulk(BulkDelete, &model.Query{Coll: c, Crit: cmpc(model.OpGtEq, "n.a", int64(45))}, nil)
+		}
+		chk("Update(n = scalar), Delete through n.a")
+	}},
 	{"mixed-type-sorts-and-windows", "C08 C02", func(s *S) {
 		docs := numDocs(7)
 		docs = append(docs,
@@ -323,7 +402,7 @@ var scenarios = []scenario{
 		n := len(docs)
 		for _, c := range []string{"plain", "idx"} {
 			for _, dir := range []int{1, -1, 0, 5, -9} {
-				for _, w := range [][2]int{{-1, -1}, {0, 0}, {0, 1}, {1, 3}, {3, n}, {n - 1, 5}, {n, 1}, {n + 3, 2}, {2, -1}} {
+				for _, w := range [][2]int{{-1, -1}, {0, 0}, {0, 1}, {1, 3}, {3, n}, {n - 1, 5}, {n, 1}, {n + 3, 2}, {2, -1}, {3, -2}, {1, -7}, {-4, -9}} {
 					q := &model.Query{Coll: c, Sorted: true, Sort: []model.SortOpt{{Field: "x", Dir: dir}}, HasSkip: true, Skip: w[0], HasLimit: true, Limit: w[1]}
 					s.FindAll(q)
 					q2 := &model.Query{Coll: c, Sorted: true, Sort: []model.SortOpt{{Field: "g", Dir: dir}, {Field: "x", Dir: -dir}}, HasSkip: true, Skip: w[0], HasLimit: true, Limit: w[1]}
